@@ -86,6 +86,8 @@ def parse_overlay(paths):
                         ent["drop"] = True
                     elif a[1] == "private":
                         ent["private"] = True
+                    elif a[1] == "expand_clone":
+                        ent["expand_clone"] = True
                     elif a[1] == "attr":
                         ent["attrs"].append(a[2])
                     else:
